@@ -11,7 +11,7 @@
 (* program, every point at which the signal can fire and every map          *)
 (* iteration order policy, checks the invariants below in every state and   *)
 (* emits the expected observable outcome of every behaviour.                *)
-EXTENDS PlExpr, Json, IOUtils
+EXTENDS PlRef, Json, IOUtils
 
 Programs == ndJsonDeserialize(IOEnv.PROG_FILE)
 WithSignal == IOEnv.WITH_SIGNAL = "1"
@@ -237,6 +237,14 @@ CancelNoError == (m.status = "error") => (ref.status = "error" /\ m.err = ref.er
 Uninterrupted == (Finished /\ ~m.sig.seen /\ ref.status # "run") =>
                    (m.status = ref.status /\ m.log = ref.log /\ m.pt = ref.pt /\ m.err = ref.err)
 CancelPrompt == (m.sig.fired /\ ~m.sig.seen /\ m.status = "run") => m.evals <= 12
+\* the machine refines the reference semantics PlRef (checked once per program and map-order policy, in the initial state)
+Refines ==
+  m.steps = 0 =>
+    LET p == Programs[CHOOSE i \in 1..Len(Programs) : Programs[i].id = m.id]
+        rr == RefRun(p, m.mo)
+    IN (ref.status \in {"done", "error"} /\ rr.status # "diverge") =>
+         /\ rr.status = ref.status /\ rr.log = ref.log /\ rr.pt = ref.pt
+         /\ ref.status = "error" => (rr.chain = ref.err.chain /\ rr.cls = ref.err.cls)
 Terminates == <>(m.status # "run" \/ m.steps >= m.fuel)
 CancelTerminates == (m.sig.fired) ~> (m.status # "run" \/ m.steps >= m.fuel)
 
